@@ -449,14 +449,14 @@ impl GarnishNumber for SimpleNumber {
 
     fn bitwise_shift_left(self, rhs: Self) -> Option<Self> {
         Some(match (self, rhs) {
-            (Integer(v1), Integer(v2)) => Integer(v1 << v2),
+            (Integer(v1), Integer(v2)) => Integer(v1.checked_shl(u32::try_from(v2).ok()?)?),
             _ => return None,
         })
     }
 
     fn bitwise_shift_right(self, rhs: Self) -> Option<Self> {
         Some(match (self, rhs) {
-            (Integer(v1), Integer(v2)) => Integer(v1 >> v2),
+            (Integer(v1), Integer(v2)) => Integer(v1.checked_shr(u32::try_from(v2).ok()?)?),
             _ => return None,
         })
     }
